@@ -61,6 +61,7 @@ LEVEL_NOTE = (
 EPS = 2.2e-16
 SE_MODES = ("identity", "custom", "inverse_sample_covariance", "inverse_unbiased_covariance", "unbiased_inverse_covariance")
 INVCOV = ("inverse_sample_covariance", "inverse_unbiased_covariance")
+INVCOV_ALL = INVCOV + ("unbiased_inverse_covariance",)
 
 
 # ============================================================================= reference model
@@ -950,12 +951,22 @@ def run_history(case, ctx, impls):
         for impl in impls:
             L, ocls = objs[impl]
             wts = weights_for(loss, step["weights"], ns, no) if step["mode"] == "custom" else None
-            opt = make_option(ocls, step["mode"], wts, step.get("implicit", False))
+            try:
+                opt = make_option(ocls, step["mode"], wts, step.get("implicit", False))
+            except ValueError:
+                if step["mode"] != "unbiased_inverse_covariance":
+                    raise
+                # the undocumented alias may legitimately be repaired by rejecting it in the option: then there is
+                # nothing to take effect and the history ends here
+                ctx.label("mode-rejected-by-option")
+                return
             try:
                 L.set_from_standard_qtomography_option_data(qt, opt, data, True, impl == "generic")
             except Exception as e:  # in-domain configuration must not raise
-                ctx.check(False, f"configure_raises:{loss}:{step['mode']}",
-                          f"{impl}: {type(e).__name__}: {e} (outcomes={no})")
+                oid = f"configure_raises:{loss}:{step['mode']}"
+                if isinstance(e, ValueError) and "symmetric" in str(e) and step["mode"] in INVCOV_ALL:
+                    oid = "configure_raises:se:invcov_not_symmetric"  # the computed weights fail quara's own validation
+                ctx.check(False, oid, f"{impl}: {type(e).__name__}: {e} (mode={step['mode']} outcomes={no})")
                 ok = False
                 break
         if not ok:
@@ -985,7 +996,7 @@ def check_fast_equals_generic(case, ctx):
         scale_v = abs(float(vg)) + abs(float(vf)) if np.ndim(vg) == 0 and np.ndim(vf) == 0 else 0.0
         scale_g = float(np.max(np.abs(gg))) + float(np.max(np.abs(gf))) if gg.shape == gf.shape else 0.0
         oid = f"{loss}:{s['klass']}"
-        prefix = "fast_se_changed" if (loss == "se" and s["klass"] == "changed") else "fast_eq_generic"
+        prefix = "fast_eq_generic"
         ctx.close(vf, vg, 10 * tv + 1e-10 * scale_v, f"{prefix}:value:{oid}",
                   f"step {s['i']} mode={s['step']['mode']} fast={vf} generic={vg}")
         ctx.close(gf, gg, 10 * tg + 1e-10 * scale_g, f"{prefix}:gradient:{oid}", f"step {s['i']} mode={s['step']['mode']}")
@@ -1015,55 +1026,12 @@ def check_weights_take_effect(case, ctx):
             tv, tg, _ = s["tols"]
             v = _scalar(L.value(s["var"]))
             g = np.asarray(L.gradient(s["var"]), dtype=float)
-            if impl == "fast" and loss == "se" and s["klass"] == "changed":
-                vid, gid = f"fast_se_changed:value_vs_ref:{mode}", f"fast_se_changed:gradient_vs_ref:{mode}"
-            else:
-                vid, gid = oid + ":value", oid + ":gradient"
+            vid, gid = oid + ":value", oid + ":gradient"
             ctx.close(v, s["ref"]["val"], 10 * tv, vid, f"step {s['i']} value={v} definition={s['ref']['val']}")
             ctx.close(g, s["ref"]["grad"], 10 * tg, gid, f"step {s['i']}")
         if mode != "identity" or s["i"] > 0:
             nontriv = True
     ctx.nontrivial(nontriv)
-
-
-# ----------------------------------------------------------------------------- predicates of the known findings
-def _steps(case):
-    return case.get("steps") or []
-
-
-def kf_invcov_shape(case):
-    """inverse-covariance mode with >= 3 outcomes (shape error in _set_weights_by_mode)."""
-    return case.get("loss") == "se" and n_out_of(case) >= 3 and any(s["mode"] in INVCOV for s in _steps(case))
-
-
-def kf_identity_stale(case):
-    """an 'identity' step after an earlier step that stored weights."""
-    if case.get("loss") != "se":
-        return False
-    seen = False
-    for s in _steps(case):
-        if s["mode"] == "identity" and seen:
-            return True
-        if s["mode"] == "custom" or (s["mode"] in INVCOV and n_out_of(case) == 2):
-            seen = True
-    return False
-
-
-def kf_unhandled_mode(case):
-    return case.get("loss") == "se" and any(s["mode"] == "unbiased_inverse_covariance" for s in _steps(case))
-
-
-def kf_fast_se_stale_ext(case):
-    """fast squared error configured through the wiring with a step that changes the weights."""
-    return case.get("loss") == "se" and any(s["mode"] != "identity" for s in _steps(case))
-
-
-def kf_re_custom_ignored(case):
-    return case.get("loss") == "re" and any(s["mode"] == "custom" for s in _steps(case))
-
-
-def kf_vector_neg_within_atol(case):
-    return case.get("clip") == "p_neg_within_atol"
 
 
 # ============================================================================= helpers facet
